@@ -861,9 +861,12 @@ func (x *Exec) forStmt(s *ast.ForStmt, st *State, label string) {
 		}
 	}
 	if spec != nil {
-		for _, ex := range spec.Exits {
-			for _, g := range x.specConjuncts(ex.Expr, env.at(se)) {
-				x.assert(se, "loop-exit", fmt.Sprintf("loop%d: %s", spec.Ord, g.label(ex.Label)), g.t, ex.Tags, s.Pos())
+		// what must hold when the loop is left: by its condition, and equally by a `break`
+		for _, out := range append([]*State{se}, lc.breaks...) {
+			for _, ex := range spec.Exits {
+				for _, g := range x.specConjuncts(ex.Expr, env.at(out)) {
+					x.assert(out, "loop-exit", fmt.Sprintf("loop%d: %s", spec.Ord, g.label(ex.Label)), g.t, ex.Tags, s.Pos())
+				}
 			}
 		}
 	}
